@@ -212,9 +212,9 @@ PROPS = {
     },
     "C09": {
         "level": "other",
-        "rules": [("WP", 17, has("unit_prop")), ("TS", 5, has("TS-STK")), ("WI", 1, None), ("PR", 1, has("SATSolver")),
+        "rules": [("WP", 14, has("unit_prop")), ("TS", 5, has("TS-STK")), ("WI", 1, None), ("PR", 1, has("SATSolver")),
                   ("LT", 2, has("UnitPropagate")), ("PM", 5, has("::get:", "::unset:", "::is_set:", "::lit_implied:", "::lit_neg_implied:")),
-                  ("WS", 32, None), ("TF", 1, None), ("EC", 4, None), ("LC", 1, has("UnitPropagate::decide"))],
+                  ("WS", 24, None), ("TF", 1, None), ("EC", 4, None), ("LC", 1, has("UnitPropagate::decide"))],
         "explanation": "Every pos/neg watch-list / occurrence-table access in unit_prop.rs is selected by the polarity of "
                        "the same literal that indexes it, insertions go to the literal's own table, reads keyed by one "
                        "literal use one side (WP); SATSolver::decide pushes exactly one state on non-UNSAT paths and none on "
